@@ -2,9 +2,9 @@ import TongoModel.PoolSelect
 import TongoModel.PoolSM
 import TongoProofs.Lemmas.PoolSelect
 import TongoProofs.Lemmas.PoolSMDeadlock
-import TongoProofs.Lemmas.GenTiesA
 import TongoProofs.Lemmas.PoolSMSelect
 import TongoProofs.Lemmas.PoolSMLive
+import TongoProofs.Lemmas.PoolSMTimer
 /-! Property C13 — the connection pool picks a healthy, current server and its waits never hang.
 Property theorems only (helper lemmas live in TongoProofs/Lemmas/PoolSelect.lean, PoolSM*.lean).
 
@@ -217,7 +217,7 @@ faster. The max loop reads 5 and 10 (max 10); then member 1 moves to 12 and memb
 of the refresh within one block of the newest head. The repaired code (one snapshot) chooses member 1 on the same
 schedule. Replayed on the Go code by `go.selectmv best-ping -1 1:5:1 1:10:2 m2:1:12 m2:0:9`. -/
 theorem select_two_pass_witness :
-    (runTrace ⟨true, true, false, true⟩ (mkInit [5, 10] none [] [(1, 12), (0, 9)] .bestPing [1, 2]) twoPassTrace).map
+    (runTrace ⟨true, true, false, true, true⟩ (mkInit [5, 10] none [] [(1, 12), (0, 9)] .bestPing [1, 2]) twoPassTrace).map
       (fun s => (s.best, s.heads)) = some (some 0, [9, 12]) ∧
     (runTrace fixed (mkInit [5, 10] none [] [(1, 12), (0, 9)] .bestPing [1, 2]) twoPassTrace).map
       (fun s => (s.best, s.heads)) = some (some 1, [9, 12]) := by
@@ -231,11 +231,11 @@ def NoDeadlock (v : Variant) : Prop := ∀ s, Reachable v s → quiescent s = tr
 /-- the 15-step counterexample for the original notifySubscribers: one waiter (target 10), two heads (5, 6) -/
 def deadlockTraceNotify : List Action :=
   [.wLock 0, .wSub 0, .sLock 0, .sSend 0, .recv, .nRLock, .nCheck, .nSend 0, .nDone, .sLock 1, .sSend 1, .recv, .nRLock,
-   .nCheck, .wFire 0]
+   .nCheck, .wCancel 0]
 
 /-- **no_deadlock is FALSE for the code as written** (defect #11). One waiter subscribes for seqno 10; head 5 is
 published and delivered into its cap-1 channel (unread); head 6 is published, `Run` takes it and holds `RLock` in
-notifySubscribers, blocked on the full channel; the waiter's timer fires and its deferred unsubscribe needs `Lock`.
+notifySubscribers, blocked on the full channel; the waiter's context is cancelled and its deferred unsubscribe needs `Lock`.
 In the reached state NO action of any thread is enabled — not even a tick or a timer (only a member's liveness
 attributes can still change, which unblocks nothing) — and the waiter has not returned. The witness is evaluated by `decide`; replayed on the Go code by `go.wait.adv.cancel`. -/
 theorem deadlock_orig_notify :
@@ -268,10 +268,10 @@ def deadlockTracePublish : List Action :=
   [.tick, .ubLock] ++ (List.range 10).flatMap (fun j => [.sLock j, .sSend j]) ++ [.sLock 10]
 
 /-- **the second deadlock**: it exists in the code as written and also when only notifySubscribers is repaired
-(`⟨true, false, true, true⟩`), so both repairs are needed. No waiter is involved. Replayed on Go by `go.wait.adv.publish`. -/
+(`⟨true, false, true, true, true⟩`), so both repairs are needed. No waiter is involved. Replayed on Go by `go.wait.adv.publish`. -/
 theorem deadlock_orig_publish :
     (∃ s, Reachable orig s ∧ (∀ a, a.isAttr = false → PoolSM.step orig s a = none) ∧ quiescent s = false) ∧
-    ¬ NoDeadlock ⟨true, false, true, true⟩ := by
+    ¬ NoDeadlock ⟨true, false, true, true, true⟩ := by
   have key : ∀ v : Variant, v.pubUnlocked = false →
       ((runTrace v (mkInit [0] (some 0) [] ((List.range 11).map (fun k => (0, k + 1)))) deadlockTracePublish).map
         (deadlocked v) = some true) →
@@ -286,7 +286,7 @@ theorem deadlock_orig_publish :
       exact ⟨s, reachable_of_runTrace _ (Reachable.init [0] (some 0) [] _ .bestPing [] (by decide) (by decide)) hs, h1, h2⟩
   refine ⟨key orig rfl (by decide), ?_⟩
   intro h
-  obtain ⟨s, hr, h1, hq⟩ := key ⟨true, false, true, true⟩ rfl (by decide)
+  obtain ⟨s, hr, h1, hq⟩ := key ⟨true, false, true, true, true⟩ rfl (by decide)
   rcases h s hr with h | ⟨a, hae, ha⟩
   · rw [hq] at h; cases h
   · rw [h1 a (by cases a <;> simp_all [Action.isAttr, Action.isEnv])] at ha; cases ha
@@ -333,7 +333,7 @@ theorem subscribe_short_circuit (v : Variant) (s : State) (i c : Nat) (x : Waite
       s'.waiters[i]? = some x' ∧ x'.pc = .sel ∧ x'.buf = [s.heads.getD c 0] ∧ x'.wid = 0 ∧
       ∃ s'' x'', PoolSM.step v s' (.wRecv i) = some s'' ∧ s''.waiters[i]? = some x'' ∧ x''.pc = .leave .ok := by
   have hlt : i < s.waiters.length := (List.getElem?_eq_some_iff.mp hx).1
-  let x' : Waiter := { x with pc := .sel, buf := [s.heads.getD c 0], wid := 0 }
+  let x' : Waiter := { x with pc := .sel, buf := [s.heads.getD c 0], wid := 0, timer := .armed }
   let s' : State := { (s.setW i x') with rw := .free, log := s.log ++ [(i, c, s.heads.getD c 0)] }
   have h1 : PoolSM.step v s (.wSub i) = some s' := by
     simp only [PoolSM.step, hx, hpc, hb, hf, hge, if_true]
@@ -341,11 +341,12 @@ theorem subscribe_short_circuit (v : Variant) (s : State) (i c : Nat) (x : Waite
   have hx' : s'.waiters[i]? = some x' := by
     show (s.waiters.set i x')[i]? = some x'
     simp [hlt]
-  let x'' : Waiter := { x' with buf := [], received := s.heads.getD c 0 :: x'.received, pc := .leave .ok }
+  let tm : Timer := Timer.armed
+  let x'' : Waiter := { x' with buf := [], pc := WPc.leave WRes.ok, timer := tm, received := s.heads.getD c 0 :: x'.received }
   have h2 : PoolSM.step v s' (.wRecv i) = some (s'.setW i x'') := by
     have hge' : x.target ≤ s.heads[c]?.getD 0 := by simpa [List.getD_eq_getElem?_getD] using hge
     simp only [PoolSM.step, hx']
-    simp [x', x'', hge']
+    simp [x', x'', tm, hge']
   refine ⟨s', x', h1, rfl, rfl, hx', rfl, rfl, rfl, s'.setW i x'', x'', h2, ?_, rfl⟩
   show (s'.waiters.set i x'')[i]? = some x''
   have : i < s'.waiters.length := (List.getElem?_eq_some_iff.mp hx').1
@@ -387,10 +388,10 @@ theorem subscribe_atomic (v : Variant) (s : State) (hr : Reachable v s) (i : Nat
       · split at hs
         · rename_i hge
           cases hs
-          exact ⟨rfl, { w with pc := .sel, buf := [s.heads.getD c 0], wid := 0 }, by simp [State.setW, hlt],
+          exact ⟨rfl, { w with pc := .sel, buf := [s.heads.getD c 0], wid := 0, timer := .armed }, by simp [State.setW, hlt],
             Or.inr ⟨rfl, Or.inl ⟨rfl, s.heads.getD c 0, by simp, hge⟩⟩⟩
         · cases hs
-          exact ⟨rfl, { w with pc := .sel, wid := s.nextId + 1 }, by simp [State.setW, hlt],
+          exact ⟨rfl, { w with pc := .sel, wid := s.nextId + 1, timer := .armed }, by simp [State.setW, hlt],
             Or.inr ⟨rfl, Or.inr (by simp [State.setW])⟩⟩
       · cases hs
 
@@ -447,7 +448,7 @@ and neither its timer nor its context fires afterwards, then the waiter's result
 deferred unsubscribe after the decision gets the pool lock). -/
 theorem wait_success_spec (e : Exec fixed) (i n0 : Nat) (w : Waiter)
     (hfR : WeakFair e RunAct) (hfW : StrongFair e (RecvAct i))
-    (hnofire : ∀ m, n0 ≤ m → e.act m ≠ .wFire i)
+    (hnofire : ∀ m, n0 ≤ m → e.act m ≠ .wFire i ∧ e.act m ≠ .wCancel i)
     (hw : (e.st n0).waiters[i]? = some w) (hsel : w.pc = .sel)
     (hoff : (∃ h ∈ w.buf, w.target ≤ h) ∨
       (∃ sw h todo, (e.st n0).run = .nLoop sw h todo ∧ i ∈ todo ∧ w.target ≤ h) ∨
@@ -479,6 +480,54 @@ theorem wait_success_spec (e : Exec fixed) (i n0 : Nat) (w : Waiter)
   obtain ⟨m, hm, hd⟩ := decided_eventually (v := fixed) rfl e i n0 hnofire hfR hfW ⟨w, hw⟩ hg
   obtain ⟨w', hw'⟩ := exec_waiter_some e i n0 ⟨w, hw⟩ m hm
   exact ⟨m, hm, w', hw', hd w' hw'⟩
+
+/-! ### the timeout clause: the timer is state (round 4) -/
+
+/-- a waiter for seqno 10 whose timeout elapses and who then receives head 6 (below its target) -/
+def rearmTrace : List Action :=
+  [.wLock 0, .wSub 0, .wDeadline 0, .sLock 0, .sSend 0, .recv, .nRLock, .nCheck, .nDrain 0, .nPut, .wRecv 0]
+
+/-- **timer_rearm_witness**: the ORIGINAL `WaitMasterchainSeqno` evaluates `time.After(timeout)` inside its loop. On
+`rearmTrace` the timeout has elapsed, then a head below the target is received: in the original code the timer is
+running again and the select cannot take the timer case (`wFire` disabled) — and so on with every further head: the
+call does not return "once its timeout has elapsed". In the repaired code (one timer) the timeout stays elapsed and
+`wFire` is enabled. Reproduced on Go by `go.wait.deadline 200 100 1`. -/
+theorem timer_rearm_witness :
+    (runTrace ⟨true, true, true, true, false⟩ (mkInit [5] (some 0) [10] [(0, 6)]) rearmTrace).map
+      (fun s => (s.waiters.map (·.timer), (PoolSM.step ⟨true, true, true, true, false⟩ s (.wFire 0)).isSome))
+      = some ([.armed], false) ∧
+    (runTrace fixed (mkInit [5] (some 0) [10] [(0, 6)]) rearmTrace).map
+      (fun s => (s.waiters.map (·.timer), (PoolSM.step fixed s (.wFire 0)).isSome)) = some ([.due], true) := by
+  constructor <;> decide
+
+/-- **timeout_bounded** (repaired code). Once the timeout of waiter `i` has elapsed while it is in its select
+(`wDeadline` has happened):
+* no step of anybody re-arms it: in every later state the waiter is still in its select with the timeout elapsed, or
+  it has left the select (`leave`/`done`);
+* as long as it is in the select the timer case is enabled (`wFire`), so its own steps are: receive a head below the
+  target (stays, timeout still elapsed), receive a head ≥ target (`leave ok`), take the timer (`leave err`);
+* in every execution in which that select is weakly fair the waiter leaves the select; with `wait_returns` it returns.
+The elapsed real time between the deadline and the return is the scheduler's (outside the model; measured by the
+oracle `go.wait.deadline`). -/
+theorem timeout_bounded (e : Exec fixed) (i n0 : Nat)
+    (hw : ∃ w, (e.st n0).waiters[i]? = some w ∧ w.pc = .sel ∧ w.timer = .due) :
+    (∀ m, n0 ≤ m → ∀ w, (e.st m).waiters[i]? = some w →
+      (w.pc = .sel ∧ w.timer = .due ∧ (PoolSM.step fixed (e.st m) (.wFire i)).isSome = true) ∨
+      (∃ r, w.pc = .leave r) ∨ (∃ r, w.pc = .done r)) ∧
+    (WeakFair e (FireAct i) →
+      ∃ m, n0 ≤ m ∧ ∃ w, (e.st m).waiters[i]? = some w ∧ ((∃ r, w.pc = .leave r) ∨ ∃ r, w.pc = .done r)) := by
+  obtain ⟨w0, hw0, hp0, ht0⟩ := hw
+  refine ⟨?_, fun hf => timeout_leaves (v := fixed) rfl e i n0 hf ⟨w0, hw0, hp0, ht0⟩⟩
+  intro m hm
+  obtain ⟨d, rfl⟩ := Nat.exists_eq_add_of_le hm
+  have hd : DueOrLeft (e.st (n0 + d)) i := by
+    induction d with
+    | zero => intro w hw; rw [Nat.add_zero, hw0] at hw; cases hw; exact Or.inl ⟨hp0, ht0⟩
+    | succ d ih => exact due_step (v := fixed) rfl i (ih (Nat.le_add_right _ _)) (e.ok (n0 + d))
+  intro w hw
+  rcases hd w hw with ⟨hp, ht⟩ | h
+  · exact Or.inl ⟨hp, ht, fire_enabled hw hp ht⟩
+  · exact Or.inr h
 
 /-- **wait_returns**: the decided waiter returns. After the decision (`leave r`) the deferred unsubscribe needs the
 pool's write lock. If `Run` and every subscribing waiter are weakly fair they release the lock again and again
